@@ -7,7 +7,10 @@
 (*     apply_algebra_lowering (+ remove_complex_nodes in real mode,        *)
 (*     apply_derivatives): one node record per constructor call            *)
 (*       terminals: argument number n (Terminals[k].num = n >= 0; possibly *)
-(*         under grad / reference_grad / reference_value: Terminals[k].wrap)*)
+(*         under grad / reference_grad / reference_value: Terminals[k].wrap;*)
+(*         Terminals[k].part >= 0: one part of the argument of a block      *)
+(*         system - the test / trial function is then the tuple of all      *)
+(*         parts with that number and varies as a whole in the experiment), *)
 (*         coefficient, geometric quantity, literal, zero                  *)
 (*       add = Sum, mul = Product (a repeated free index is summed:        *)
 (*       IndexSum(Product)), div = Division, pow = Power, abs, conj, real, *)
@@ -47,19 +50,21 @@
 EXTENDS Integers, Sequences, FiniteSets, FiniteSetsExt, SequencesExt, TLC, Json, Randomization, CQ, ArityRules
 
 CONSTANTS
-  Terminals,       \* sequence of [nm, sh, num (argument number or -1), wrap ("none","grad","rval","rgrad")]
+  Terminals,       \* sequence of [nm, sh, num (argument number or -1), part (of the Argument, -1: None),
+                   \*              wrap ("none","grad","rval","rgrad")]
   TermVal,         \* TermVal[e][k]: value table of Terminals[k] in environment e
   NEnv,            \* number of environments
   Lits,            \* sequence of [nm, v]: literal scalars
   Zeros,           \* sequence of shapes: zero tensors (instances of Zero)
-  Slices,          \* sequence of [ops, ids, idx, maxnodes, maxrank]: the bounded instances explored
+  Slices,          \* sequence of [ops, ids, idx, maxnodes, maxrank, fargs]: the bounded instances explored
                    \* in this run: enabled operations, usable initial nodes, usable index names
-                   \* (integers >= 10), bound on constructed nodes, bound on the rank
+                   \* (integers >= 10), bound on constructed nodes, bound on the rank, and "all the
+                   \* form's arguments" (set of <<number, part>>) of a form made of the slice's terms
   MaxDim,          \* maximal axis dimension
   ComplexMode,     \* BOOLEAN: compute_form_data(..., complex_mode=...)
   ListTensorRule,  \* "as_coded" | "intended"
   NGroups,         \* number of independent environment groups (>= 2)
-  NArgs            \* the form's arguments are numbered 0..NArgs-1
+  NArgs            \* the form's arguments are numbered 0..NArgs-1 (2: bilinear forms, 3: trilinear)
 
 VARIABLES store,   \* the construction history
           sl       \* the slice this behaviour explores (constant along a behaviour)
@@ -178,8 +183,8 @@ Mk(op, args, mi, sh, fi, F(_, _, _), A(_)) ==
 (* Initial store: terminals, literals, zeros, with the arity of their handlers *)
 TermArity0(k) ==
   IF Terminals[k].num < 0 THEN H_terminal                       \* coefficient, geometry
-  ELSE IF Terminals[k].wrap = "none" THEN H_argument(Terminals[k].num)
-  ELSE H_linear_operator(H_argument(Terminals[k].num))          \* grad(v), reference_value(v), ...
+  ELSE IF Terminals[k].wrap = "none" THEN H_argument(Terminals[k].num, Terminals[k].part)
+  ELSE H_linear_operator(H_argument(Terminals[k].num, Terminals[k].part))   \* grad(v), reference_value(v), ...
 TermNode(k) == Node("term", << >>, << >>, Terminals[k].sh, << >>, [e \in Envs |-> TermVal[e][k]],
                     TermArity0(k), TermArity0(k))
 LitNode(k) == Node("lit", << >>, << >>, << >>, << >>, [e \in Envs |-> (<< >> :> Lits[k].v)],
@@ -454,12 +459,15 @@ Top == store[TopN]
 Integrand(x) == IsVal(x) /\ TrueScalar(x)
 Built == TopN > NInit /\ Integrand(Top)
 TheAr(x) == IF ListTensorRule = "as_coded" THEN x.arc ELSE x.ari
-\* the form's arguments: those of the integrand itself, or (a form with further integrals) all
-FormArgSets(x) == {x.arc.m, AllArgs}
+\* the form's arguments (pairs <<number, part>>): those of the integrand itself, or (a form with
+\* further integrals) all of the slice; linearity is per argument NUMBER (all parts vary together)
+SliceArgs == Slices[sl].fargs
+FormArgSets(x) == {x.arc.m, SliceArgs}
+NumsOf(FA) == {q[1] : q \in FA}
 Accepts(x, FA) == Accepted(TheAr(x), FA, ComplexMode)
-Multilinear(x, FA)       == \A n \in FA : x.sem[n + 1].cls = "yes"
-NonlinearOrAffine(x, FA) == \E n \in FA : x.sem[n + 1].cls = "no"
-AllDefined(x, FA)        == \A n \in FA : x.sem[n + 1].cls # "unknown"
+Multilinear(x, FA)       == \A n \in NumsOf(FA) : x.sem[n + 1].cls = "yes"
+NonlinearOrAffine(x, FA) == \E n \in NumsOf(FA) : x.sem[n + 1].cls = "no"
+AllDefined(x, FA)        == \A n \in NumsOf(FA) : x.sem[n + 1].cls # "unknown"
 
 Sound ==
   Built => \A FA \in FormArgSets(Top) : Accepts(Top, FA) /\ AllDefined(Top, FA) => Multilinear(Top, FA)
@@ -476,7 +484,7 @@ DumpRec == LET x == Top
                [op |-> store[NInit + k].op, args |-> store[NInit + k].args, mi |-> store[NInit + k].mi]],
    arc |-> EncAr(x.arc), ari |-> EncAr(x.ari),
    acc |-> [c |-> Accepted(x.arc, M, ComplexMode), i |-> Accepted(x.ari, M, ComplexMode),
-            call |-> Accepted(x.arc, AllArgs, ComplexMode), iall |-> Accepted(x.ari, AllArgs, ComplexMode)],
+            call |-> Accepted(x.arc, SliceArgs, ComplexMode), iall |-> Accepted(x.ari, SliceArgs, ComplexMode)],
    sem |-> x.sem,
    zero |-> \A e \in Envs : x.val[e][<< >>] = C0]
 DumpInv == (LiveIn(store) /\ Integrand(Top)) => PrintT(ToJson(DumpRec))
